@@ -21,7 +21,9 @@ PROPS = {
         "level": _L.format(what="shielded send (who-may-call), exhaustive 8x8 acknowledgement-coverage table, ack "
                                 "information applied for DATA/ACK/NAK before dispatch, NAK => NotAcked, plus every "
                                 "receiver rule of C04 and sender rule of C05, the frame layout rules of C03 (a conforming peer must "
-                                "decode what is written) and the reference-receiver stream rule R02.5"),
+                                "decode what is written), the reference-receiver stream rules R02.5 / R02.6, and the layers between the link and EZSP in both "
+                                "directions (gateway submits each frame once, hands each accepted payload up once; the cross-thread proxy runs every queued "
+                                "call once, in order)"),
         "undecided": ["end-to-end exactly-once / in-order delivery against a conforming NCP under loss, corruption, "
                       "duplication and stalls (two interacting state machines; schedules)", "NCP windows 2..3"],
     },
@@ -47,7 +49,8 @@ PROPS = {
                                 "layer raising during delivery), dispatch table for the six frame classes, RSTACK "
                                 "restart, confined writers of the expected number, and the decoding a well-formed "
                                 "frame goes through first (unstuffing transducer, control-byte classification, CRC gate, "
-                                "scanner iteration)"),
+                                "scanner iteration), the RST / frames-in-flight / RSTACK history on one object, and the gateway and cross-thread proxy "
+                                "above the link (every accepted payload reaches EZSP exactly once)"),
         "undecided": ["nothing beyond the trusted base (sequences follow by induction on the per-frame function)"],
     },
     "C05": {
@@ -61,31 +64,38 @@ PROPS = {
         "level": _L.format(what="register/advance/send order and atomicity in command(), mod-256 successor over 256 "
                                 "values, single slot on all exits, bounded wait, priority table, reply/callback "
                                 "demultiplexing paths, callback fan-out containment, header reader independent of the "
-                                "frame-control status bits, current-handler resolution also across a restart"),
+                                "frame-control status bits, current-handler resolution also across a restart, the exception class of every failing exit "
+                                "(also at the sequence-number wrap and when the reply is popped in the turn the limit fires), the link submission outside "
+                                "the reply time limit, the frame entry point evaluated per version and frame length"),
         "undecided": ["all interleavings of N callers with late/duplicate replies as executed schedules"],
     },
     "C07": {
         "level": _L.format(what="frame-ID injectivity and range in 11 versions (2751 entries), header writer/reader "
                                 "agreement per version, declared-order (de)serialisation, prefix-decodability of "
                                 "every rx schema and struct, every command call site against its version's schema, "
-                                "overriding struct decoders transparent on full-length input, no re-implemented primitive codec"),
+                                "overriding struct decoders transparent on full-length input, no re-implemented primitive codec (length prefixes at the edges "
+                                "of their width), enum lookup hooks that keep the value, every proper prefix of an encoding rejected"),
         "undecided": ["value-level correctness of zigpy's primitive serialize/deserialize"],
     },
     "C08": {
         "level": _L.format(what="empty escape set of EZSP.frame_received; completion only after the frame-ID "
                                 "equality test; callback only on the known-ID, decoded, not-pending path; no stray "
-                                "state writes in the receive path; field decoders raise on truncated input; sequence "
-                                "numbers of stale pending entries"),
+                                "state writes in the receive path; field decoders raise on truncated input (every proper prefix); sequence "
+                                "numbers of stale pending entries; the entry point evaluated for frame lengths 0..8 and 64 in every version with a "
+                                "handler that returns or raises"),
         "undecided": ["'commands issued afterwards still complete' as an executed scenario"],
     },
     "C09": {
         "level": _L.format(what="reset -> v4 fallback order, two-step version query, handler selection for versions "
-                                "4..16, version-keyed table safety, start-up path shape, defaults name real IDs"),
+                                "4..16 (tables discovered dynamically included), version-keyed table safety, start-up over the outcomes of the start-up "
+                                "waiter in either spelling of the bounded wait, the RST / frames-in-flight / RSTACK history, command time limit "
+                                "starting after the link took the frame, defaults name real IDs"),
         "undecided": ["the handshake against a framing-aware peer; link faults during bring-up"],
     },
     "C10": {
         "level": _L.format(what="must-reach analysis of every hop from each failure source to the application "
-                                "callback on all paths, running gate, closed-transport gate, bounded waits"),
+                                "callback on all paths, running gate, closed-transport gate, bounded waits, a deliberate close during a reset stays "
+                                "silent, plain application entry points reached through the proxy return nothing"),
         "undecided": ["injection at every wire event of a running stack; measured time; threaded hand-offs"],
     },
     "C11": {
@@ -97,7 +107,8 @@ PROPS = {
     "C12": {
         "level": _L.format(what="all paths of send_packet over enqueue statuses x address modes x confirmation "
                                 "outcomes, context-managed bookkeeping, tag/destination custody from request to "
-                                "callback lookup in 11 versions, set-up + send under one lock"),
+                                "callback lookup in 11 versions (every outgoing type, every failure status, tags / destinations that agree only in one "
+                                "byte), set-up + send under one lock, the pending table's own clean-up when it is a repository class"),
         "undecided": ["concurrent packets against a simulated NCP"],
     },
     "C13": {
@@ -110,7 +121,9 @@ PROPS = {
     "C14": {
         "level": _L.format(what="every accessor against its version's schemas, restore/read-back field pairs, "
                                 "security-state flag table, key-struct flag triples, restore order, frame counters written "
-                                "for every value incl. 0, link-key read-back over a table with gaps, bring-up listener order"),
+                                "for every value incl. 0, link-key read-back over a table with gaps, link keys through application and handler as one "
+                                "program per version, child table read-back and EUI64 -> address direction, hashed-key source, table sizes not "
+                                "lowered behind the restore, bring-up listener order"),
         "undecided": ["the NCP's stored state; a round trip through a stateful peer"],
     },
     "C15": {
@@ -127,7 +140,8 @@ PROPS = {
     },
     "C17": {
         "level": _L.format(what="listener registered before the command and removed on every exit, refusal raises, "
-                                "bounded wait, status fan-out tolerant of done listeners, scan callback pairing"),
+                                "bounded wait, status fan-out tolerant of done listeners, scan callback pairing, listener and callback-registry "
+                                "histories on one object (events before the wait, second operations, 600 register / unregister cycles)"),
         "undecided": ["event orders as executed schedules; timeouts in time"],
     },
     "C18": {
@@ -139,14 +153,16 @@ PROPS = {
     },
     "C19": {
         "level": _L.format(what="all paths of _watchdog_feed over keep-alive outcomes, counter values 0..MAX+3, "
-                                "version {4, other} and the clear period; confined writers of the counters; a command after "
-                                "the stack was stopped raises the error the feed counts"),
+                                "every version 4..14 and a newer one, and the clear period; feed histories judged by which feeds raise; confined "
+                                "writers of the counters; a command after the stack was stopped - or timing out at any sequence number - raises the "
+                                "error the feed counts"),
         "undecided": [],
     },
     "C20": {
         "level": _L.format(what="dispatch table of ThreadsafeProxy.__getattr__ over 20 predicate combinations (incl. the "
                                 "wrapped method raising, scheduling on a closed loop raising); the queued callback and the "
-                                "stop sequence of the loop thread executed abstractly; wiring of the two proxies in uart.connect"),
-        "undecided": ["real threads, bursts, a loop closing underneath a caller"],
+                                "stop sequence of the loop thread executed abstractly; wiring of the two proxies in uart.connect; the caller's arguments "
+                                "reach the method unchanged; a burst of 300 queued calls runs once each in order; plain application entry points return None"),
+        "undecided": ["real threads, a loop closing underneath a caller"],
     },
 }
